@@ -422,8 +422,23 @@ def inplace_twin(repo, res):
     arr = repo.mod(ARR)
     a, b = arr.func("unyt_array.convert_to_units"), arr.func("unyt_array.in_units")
 
+    uo_ = repo.mod("unyt/unit_object.py")
+
     def calls(fn, name):
-        return sorted(norm(c) for c in ast.walk(fn.node) if isinstance(c, ast.Call) and (norm(c.func) == name or norm(c.func).endswith("." + name)))
+        # arguments are compared as bindings to the callee's parameters, so that a keyword and the positional form of
+        # the same call are one call
+        out = []
+        callee = (uo_.funcs.get(name) or arr.funcs.get(name) or uo_.funcs.get("Unit." + name) or [None])[0]
+        for c in ast.walk(fn.node):
+            if isinstance(c, ast.Call) and (norm(c.func) == name or norm(c.func).endswith("." + name)):
+                if callee is not None:
+                    from rules.common import bind_call
+
+                    b_ = bind_call(c, callee, skip_self=callee.cls is not None)
+                    out.append(norm(c.func) + "(" + ", ".join(f"{k}={norm(v) if isinstance(v, ast.AST) else v}" for k, v in sorted(b_.items())) + ")")
+                else:
+                    out.append(norm(c))
+        return sorted(out)
 
     for name in ("_check_em_conversion", "_em_conversion", "get_conversion_factor", "_sanitize_units_convert"):
         ca, cb = calls(a, name), calls(b, name)
